@@ -167,8 +167,12 @@ def main_check(prop_id, tier, seed):
     ensure_setup()
     mod = importlib.import_module("vlib.props.%s" % prop_id.lower())
     outdir = os.path.join(VERIF, "build", "runs", prop_id)
-    os.makedirs(outdir, exist_ok=True)
     repdir = os.path.join(VERIF, "replays", prop_id)
+    if os.environ.get("VERIF_EVIDENCE_DIR"):
+        # experiment against another tree (seeded change): keep every by-product away from /verif's own
+        outdir = os.path.join(os.environ["VERIF_EVIDENCE_DIR"], "runs", prop_id)
+        repdir = os.path.join(os.environ["VERIF_EVIDENCE_DIR"], "replays", prop_id)
+    os.makedirs(outdir, exist_ok=True)
     os.makedirs(repdir, exist_ok=True)
     legs = []
     absent = []
